@@ -195,10 +195,14 @@ def capMax {α : Type} (maxResults : Nat) (l : List α) : List α :=
 /-- one streamed item: key and matched labels -/
 abbrev Item := String × List String
 
-/-- the per-row loop of `GetByIndexStream`: predicate, labels, MaxResults -/
+/-- the per-row loop of `GetByIndexStream`: predicate, labels, MaxResults.  Labels are collected
+    only when the evaluated group has any (`needsMeta := hasAnyLabels(residualFilters)`). -/
 def emit (cfg : Cfg) (g : Option Group) (labelG : Option Group) (maxResults : Nat) (rows : List Rec) : List Item :=
   let pass (r : Rec) : Bool := match g with | some g => evalGroup (evalLeaf cfg r.body) g | none => true
-  let lab (r : Rec) : List String := match labelG with | some g => labelsOf (evalLeaf cfg r.body) g | none => []
+  let lab (r : Rec) : List String :=
+    match labelG with
+    | some g => if g.hasLabels then labelsOf (evalLeaf cfg r.body) g else []
+    | none => []
   capMax maxResults ((rows.filter pass).map (fun r => (r.key, lab r)))
 
 /-- the ordered index read of the scan route, as C07's Spec gives it: carriers, sorted; the time
@@ -224,18 +228,20 @@ def bucketExec (cfg : Cfg) (store : List Rec) (q : Query) (full : Group) (hints 
   -- applyTimeRange: every beacon type, the key index has timestamp 0
   let c2 := if hasWindow q && (!cfg.bucketWindowTimeOnly || q.slot != .key) then c1.filter (inWindow q) else c1
   let rows := sortRecs q.slot q.asc c2
-  let labelG := if cfg.labelReattach then some full else residual
+  -- `residualFilters = plan.Residual; if hasAnyLabels(filters) { residualFilters = filters }`
+  let resid := if cfg.labelReattach && full.hasLabels then some full else residual
   if cfg.bucketPagingAfterFilter then
-    let pass (r : Rec) : Bool := match residual with | some g => evalGroup (evalLeaf cfg r.body) g | none => true
-    emit cfg none labelG q.maxResults (pageOf q.from_ q.limit (rows.filter pass))
+    let pass (r : Rec) : Bool := match resid with | some g => evalGroup (evalLeaf cfg r.body) g | none => true
+    emit cfg none resid q.maxResults (pageOf q.from_ q.limit (rows.filter pass))
   else
-    emit cfg residual labelG q.maxResults (pageOf q.from_ q.limit rows)
+    emit cfg resid resid q.maxResults (pageOf q.from_ q.limit rows)
 
 /-- accelerated route: what `GetByIndexStream` does with the filter as given -/
 def bucketRoute (cfg : Cfg) (store : List Rec) (q : Query) : List Item :=
   match q.filter with
   | none => scanRoute cfg store q
   | some g =>
+    if cfg.pagedQueriesBypass && (q.from_ != 0 || q.limit != 0) then scanRoute cfg store q else
     match planFilter cfg g with
     | .bypass => scanRoute cfg store q
     | .and hints residual => bucketExec cfg store q g hints (some residual)
